@@ -167,8 +167,12 @@ def finish(ctx: Ctx, explanation: str, level: str = "other") -> int:
     ev = {"property_id": ctx.prop, "tier": ctx.tier, "seed": int(os.environ.get("VERIF_SEED", "0") or 0),
           "level": level, "coverage": cov, "assumptions": ctx.assumptions, "wall_s": round(wall, 3),
           "violations": len(unlisted)}
-    os.makedirs(os.path.join(VERIF, "evidence"), exist_ok=True)
-    with open(os.path.join(VERIF, "evidence", f"{ctx.prop}.json"), "w") as fh:
+    # evidence/ describes /repo only: a run against another tree (--repo, used for seeded changes and the original
+    # snapshot) leaves it alone and writes under the git-ignored replay/ directory instead
+    on_repo = os.path.realpath(ctx.project.repo) == os.path.realpath("/repo")
+    ev_dir = os.path.join(VERIF, "evidence") if on_repo else os.path.join(VERIF, "replay", "other-tree-evidence")
+    os.makedirs(ev_dir, exist_ok=True)
+    with open(os.path.join(ev_dir, f"{ctx.prop}.json"), "w") as fh:
         json.dump(ev, fh, indent=1, default=str)
     print(f"{ctx.prop}: {ctx.obligations} obligations, {ctx.discharged} held, {len(listed)} known finding(s), "
           f"{len(unlisted)} violation(s); {len(ctx.functions_analysed)} functions, {ctx.paths} configuration paths, "
